@@ -322,7 +322,7 @@ pub fn oracle_inputs(rng: &mut Rng, thorough: bool) -> Vec<Input> {
     }
     // 1. prefixes and single-character deletions of the snapshot corpus and of the base templates
     let corpus = tvh::corpus::corpus_templates();
-    let (kn, kd) = if thorough { (1, 1) } else { (1, 10) };
+    let (kn, kd) = if thorough { (1, 1) } else { (1, 16) };
     for (label, src) in &corpus {
         push_mutations(&mut out, label, src, rng, kn, kd);
         out.push(Input::new("corpus", format!("corpus:{label}"), src.as_str()));
@@ -435,7 +435,7 @@ pub fn oracle_inputs(rng: &mut Rng, thorough: bool) -> Vec<Input> {
                 i.delims = Some(d.clone());
                 out.push(i);
                 for &p in &idx {
-                    if thorough || rng.chance(1, 8) {
+                    if thorough || rng.chance(1, 14) {
                         let mut i = Input::new("delimiters", format!("delims:{di}:base{k}.{v}:prefix{p}"), &s[..p]);
                         i.delims = Some(d.clone());
                         out.push(i);
